@@ -28,7 +28,7 @@ func main() {
 		usage()
 	}
 	switch os.Args[1] {
-	case "verify", "list", "loops":
+	case "verify", "list", "loops", "maporder":
 		cmdVerify(os.Args[1], os.Args[2:])
 	case "check":
 		os.Exit(cmdCheck(os.Args[2:]))
@@ -178,6 +178,9 @@ func cmdVerify(mode string, argv []string) {
 	}
 	fmt.Fprintf(os.Stderr, "loaded in %.1fs, %d harnesses\n", time.Since(t0).Seconds(), len(P.harness))
 	switch mode {
+	case "maporder":
+		cmdMapOrder(P)
+		return
 	case "list":
 		for _, n := range P.HarnessNames() {
 			h := P.harness[n]
